@@ -41,6 +41,11 @@ META = dict(
                 'depends on every single byte at any position; the header carries and the loader compares the CRC of the WHOLE value / data area for every '
                 'length; the text of the class and of its two call sites is tied rigidly, and the real class is run on buffers around every plausible block '
                 'boundary up to 1 MiB + 1 against zlib and the extracted model. The '
+                'lock discipline: the table of file accesses per locked_file scope is extracted from the current source on every run and proved to put every '
+                'access under the per-sid lock, every look-then-unlink sequence and every save into ONE lock scope; over that table a two-actor interleaving '
+                'model (gc vs load+save on one sid, all interleavings, all file states) shows that gc never unlinks a record live at that moment and the '
+                'saved session survives; tables with the stamp read outside the lock, with two separate scopes, or with unlocked writes are refuted; the harness '
+                'forces the rendezvous (second thread released right after gc reads the stamp) in both lock modes. The '
                 'bundled CRC table of private/crc32.h is regenerated from source and proved equal to the bit model, and the table-driven loop is '
                 'proved equal to the bit-by-bit CRC; the per-character test of session_sid::valid_sid is regenerated from source and proved equal to '
                 'the model on all 256 bytes; the zlib path, the write sequence and every other code path are tied by running the '
@@ -50,9 +55,8 @@ META = dict(
                 'atomic, write-back of a sector shows a prefix of the write stream, unwritten bytes of an extended file read as zero, no '
                 'reordering across fsync because there is none); harness materialises crash states from the recorded write() calls of the '
                 'real save. Not covered: ENOSPC/EINTR error paths (short reads of the header fields and of the gc timestamp are executed and compared with '
-                'the plain reader; the Coq short-read model covers the data buffer), fcntl locking across processes and the '
-                'per-sid mutex (concurrency is exercised by the thread/process scripts and judged by the oracle only; both lock modes are '
-                'executed), size fields >= 2^31 are executed only on short files (refused by the length test; loaded under an address-space '
+                'the plain reader; the Coq short-read model covers the data buffer), the semantics of pthread_mutex/fcntl and the inode re-check loop of locked_file (trusted; the lock discipline is proved over the extracted '
+                'table at lock granularity for two actors; thread/process/rendezvous scripts run in both lock modes), size fields >= 2^31 are executed only on short files (refused by the length test; loaded under an address-space '
                 'limit with operator new watched); the branch where a file of more than 2 GiB carries such a size field (int-typed read count '
                 'goes negative, zero buffer is CRC-checked) is modelled but never executed, payloads >= 2^31 bytes, clock <= 0. The history theorems start from an absent file (planted files are covered by the '
                 'single-crash theorem C18_crash_safe_any_old, not by the invariant).'),
@@ -115,6 +119,156 @@ def crc_calc_tie():
         if uses.count(need) != 1 or uses.count('process_bytes') != 2:
             return 'src/session_posix_file_storage.cpp no longer feeds crc32_calc with exactly: ' + need
     return None
+
+
+# ------------------------------------------------------------------------------------------------
+# lock-discipline table of session_file_storage, extracted from the current source (rigid lexical extraction)
+# ------------------------------------------------------------------------------------------------
+LOCK_ENTRIES = ('save', 'load', 'remove', 'gc')
+LOCK_HELPERS = ('save_to_file', 'read_from_file', 'read_timestamp', 'write_all', 'read_all')
+LOCK_OTHER = ('session_file_storage', '~session_file_storage', 'sid_to_pos', 'lock', 'unlock', 'file_name', 'is_blocking')
+LOCKED_FILE_SHA = 'f62d873688bd00e7187e139b239d531c9288e2b5194e21667ad5e1f205890bf6'   # class text as read on 2026-10-02: ctor lock(sid); open; [fcntl F_SETLKW; stat/fstat inode re-check]; dtor [fcntl unlock]; close; unlock(sid)
+ACC_OF = {'open': 'AOpen', 'read': 'ARead', 'write': 'AWrite', 'unlink': 'AUnlink', 'close': 'AClose', 'lseek': 'ASeek', 'fstat': 'AStat', 'stat': 'AStat'}
+
+
+class LockTabError(Exception):
+    pass
+
+
+def _strip_cxx(txt):
+    import re
+    txt = re.sub(r'/\*.*?\*/', ' ', txt, flags=re.S)
+    txt = re.sub(r'//[^\n]*', ' ', txt)
+    txt = re.sub(r'"(?:\\.|[^"\\])*"', '""', txt)
+    return txt
+
+
+def _block(txt, start):
+    """text of the brace block that starts at the first { at or after start (exclusive of the braces)"""
+    i = txt.index('{', start)
+    d = 0
+    for j in range(i, len(txt)):
+        if txt[j] == '{':
+            d += 1
+        elif txt[j] == '}':
+            d -= 1
+            if d == 0:
+                return txt[i + 1:j], j + 1
+    raise LockTabError('unbalanced braces')
+
+
+def lock_table(repo):
+    """[(entry, [(access, scope)])]: for save/load/remove/gc the system calls on the session file in textual order, helpers inlined, each with
+    the number of the `locked_file` object (1, 2, .. in textual order within the entry) inside whose lifetime it is made, 0 = outside.
+    A locked_file lives from its declaration to the end of the enclosing brace block; its constructor (lock the sid, then open) and
+    destructor (close, then unlock) are tied by the hash of the class text. Fails closed on anything it does not understand."""
+    import re, hashlib
+    txt = _strip_cxx(open(os.path.join(repo, 'src', 'session_posix_file_storage.cpp')).read())
+    m = re.search(r'class\s+session_file_storage::locked_file\s*\{', txt)
+    if not m:
+        raise LockTabError('class session_file_storage::locked_file not found')
+    body, end = _block(txt, m.start())
+    sha = hashlib.sha256(' '.join(body.split()).encode()).hexdigest()
+    if sha != LOCKED_FILE_SHA:
+        raise LockTabError('the text of class locked_file changed (sha256 %s): its constructor must lock the sid before the open and its '
+                           'destructor close before the unlock; look at it and update LOCKED_FILE_SHA' % sha)
+    rest = txt[:m.start()] + txt[end:]
+    funcs = {}
+    for fm in re.finditer(r'\bsession_file_storage::(~?\w+)\s*\(', rest):
+        name = fm.group(1)
+        if name == 'locked_file':
+            continue
+        # a definition: the parameter list is followed by an optional initialiser list and a {
+        depth, k = 0, fm.end() - 1
+        while True:
+            if rest[k] == '(':
+                depth += 1
+            elif rest[k] == ')':
+                depth -= 1
+                if depth == 0:
+                    break
+            k += 1
+        tail = rest[k + 1:k + 400]
+        if not re.match(r'\s*(const\s*)?(:[^{;]*)?\{', tail, re.S):
+            continue
+        if name in funcs:
+            raise LockTabError('two definitions of ' + name)
+        funcs[name], _ = _block(rest, k)
+    unknown = sorted(set(funcs) - set(LOCK_ENTRIES) - set(LOCK_HELPERS) - set(LOCK_OTHER))
+    if unknown:
+        raise LockTabError('methods of session_file_storage the table does not know: ' + ', '.join(unknown))
+    for need in LOCK_ENTRIES + LOCK_HELPERS:
+        if need not in funcs:
+            raise LockTabError('method %s not found' % need)
+    tok = re.compile(r'(\{)|(\})|\blocked_file\s+(\w+)\s*\(\s*this\s*,\s*\w+\s*,\s*(?:true|false)\s*\)\s*;|::\s*(open|read|write|unlink|close|lseek|fstat|stat)\s*\(|'
+                     r'\b(save_to_file|read_from_file|read_timestamp|write_all|read_all)\s*\(|\b(locked_file|goto|pthread_mutex_\w+|fcntl|flock|lockf|rename|ftruncate|'
+                     r'truncate|fopen|creat|pread|pwrite|mmap|dup2?)\b')
+
+    table = []
+    for e in LOCK_ENTRIES:
+        table.append((e, _walk_entry(funcs, tok, e)))
+    # every file system call of the translation unit outside locked_file must be inside one of the analysed methods
+    allcalls = len(re.findall(r'::\s*(?:open|read|write|unlink)\s*\(', rest))
+    seen = sum(len(re.findall(r'::\s*(?:open|read|write|unlink)\s*\(', funcs[f])) for f in LOCK_ENTRIES + LOCK_HELPERS)
+    if allcalls != seen:
+        raise LockTabError('file system calls outside the analysed methods (%d of %d seen)' % (seen, allcalls))
+    return table
+
+
+def _walk_entry(funcs, tok, name, scope=0, ctr=None, guard=0):
+    """accesses of one method in textual order; a locked_file scope ends (destructor: close, unlock) with the brace block it was declared in"""
+    if guard > 6:
+        raise LockTabError('helper recursion')
+    ctr = ctr if ctr is not None else [0]
+    out = []
+    cur = scope
+    stack = []                   # per open brace block: (scope current at entry, scope opened inside this block or None)
+    opened_here = None           # a locked_file declared in the current (function-level) block
+    for t in tok.finditer(funcs[name]):
+        if t.group(1):
+            stack.append((cur, opened_here))
+            opened_here = None
+        elif t.group(2):
+            if not stack:
+                raise LockTabError('brace underflow in ' + name)
+            if opened_here is not None:
+                out.append(('AClose', opened_here))
+            cur, opened_here = stack.pop()
+        elif t.group(3):
+            if guard > 0:
+                raise LockTabError('locked_file declared in helper ' + name)
+            if cur != 0:
+                raise LockTabError('nested locked_file in ' + name)
+            ctr[0] += 1
+            cur = opened_here = ctr[0]
+            out.append(('AOpen', cur))
+        elif t.group(4):
+            out.append((ACC_OF[t.group(4)], cur))
+        elif t.group(5):
+            out += _walk_entry(funcs, tok, t.group(5), cur, ctr, guard + 1)
+        elif t.group(6):
+            raise LockTabError('%s: construct the lock table does not understand: %s' % (name, t.group(6)))
+    if stack:
+        raise LockTabError('unbalanced braces in ' + name)
+    if opened_here is not None:
+        out.append(('AClose', opened_here))
+    return out
+
+
+def gen_locktab(ctx):
+    out = os.path.join(vlib.COQ, 'gen', 'Gen_C18_locks.v')
+    try:
+        tab = lock_table(vlib.REPO)
+        rows = ';\n   '.join('("%s"%%string, [%s])' % (e, '; '.join('(%s, %d)' % (a, sc) for a, sc in l)) for e, l in tab)
+        txt = ('(* GENERATED by checks/C18.py:gen_locktab from src/session_posix_file_storage.cpp -- do not edit *)\n'
+               'From Coq Require Import List String.\nImport ListNotations.\nFrom CppcmsV Require Import C18.LockDefs.\n'
+               'Definition g_lock_table : list entry :=\n  [%s].\n' % rows)
+        with vlib.Lock('gen-Gen_C18_locks'):
+            vlib.write_if_changed(out, txt)
+        return None, tab
+    except Exception as e:
+        vlib.write_if_changed(out, '(* lock table extraction failed *)\nDefinition broken : False := I.\n')
+        return str(e), None
 
 
 V0 = '0123456789abcdef0123456789abcdef'
@@ -596,6 +750,35 @@ def gen_cases(ctx):
     # spread the heavy lines over the whole list: the runners split the list into contiguous parts
     for j, c in enumerate(big):
         cases.insert((j + 1) * len(cases) // (len(big) + 1), c)
+    # G17: gc racing with a request on the same sid, made deterministic: the harness releases a second thread (load + save with a deadline in the
+    # future) right after gc's read() of the stamp of that file. The file looks dead at that read (expired record, garbage, or a file just created
+    # with no header yet); with the stamp read and the unlink under one hold of the per-sid lock the second thread blocks until gc is done
+    # with the file, so the saved session is there afterwards - in both lock modes
+    amb = []
+    for _ in range(ctx.scale(24, 200)):
+        names = [V0, V1, V2]
+        rng.shuffle(names)
+        pre = []
+        kind = rng.randrange(6)
+        if kind == 0:
+            pre.append(S(0, rng.choice([900, 999, 0]), rb(rng, rng.choice([0, 5, 600]))))           # expired record
+        elif kind == 1:
+            pre.append(P(0, b''))                                                               # just created, no header yet
+        elif kind == 2:
+            pre.append(P(0, rb(rng, rng.choice([1, 7]))))                                       # shorter than a stamp
+        elif kind == 3:
+            pre.append(S(0, rng.choice([1000, 1001, 5000]), rb(rng, rng.choice([0, 5, 600]))))  # live: gc keeps it, the request overwrites it
+        elif kind == 4:
+            pre.append(P(0, struct.pack('<q', 999) + rb(rng, 9)))                               # expired stamp, garbage behind it
+        for j in (1, 2):
+            if rng.random() < 0.6:
+                pre.append(S(j, rng.choice([900, 1000, 5000]), rb(rng, rng.randrange(0, 9))))
+        rng.shuffle(pre)
+        d = rb(rng, rng.choice([0, 3, 40, 700]))
+        amb.append(case(pre + ['A:0:1000:%d:%s' % (rng.choice([1000, 5000]), hexs(d)), L(0, 1000), 'G:1000', L(0, 1000)] + [L(j, 1000) for j in (1, 2)],
+                        names=names, flock=rng.randrange(2)))
+    for j, c in enumerate(amb):
+        cases.insert((j + 1) * len(cases) // (len(amb) + 1), c)
     # G10: threads on one session (per-sid mutex, with and without the fcntl lock): a load that runs while other threads save must see a
     # complete record, never a half-written one (which it would also unlink)
     for _ in range(ctx.scale(12, 60)):
@@ -881,6 +1064,32 @@ def oracle(case_line, out):
         if op == 'Y':
             # a gc whose read() calls are all cut to k bytes: judged like a gc
             op, a, res = 'G', ['G', a[1]], 'G' + res[1:]
+        if op == 'A':
+            # gc racing with a request that loads and saves session i with a deadline in the future (released right after gc's stamp read): the
+            # other files are judged as for a gc; session i was saved and never removed afterwards: it must be there
+            i, now, t, d = int(a[1]), int(a[2]), int(a[3]), val(payload(a[4]))
+            for j in range(n):
+                if j == i or not valid_name(names[j]):
+                    if j != i and prev.get(j) != summ.get(j):
+                        return ('gc-touched-foreign-file', 'gc changed a file whose name is not 32 hex digits: ' + names[j])
+                    continue
+                if known_absent[j]:
+                    continue
+                live = (must[j] is not None and must[j][0] >= now) or (dead[j] is not None and dead[j][0] == 't' and dead[j][1] >= now)
+                gone = dead[j] is not None and (dead[j][0] == 'short' or dead[j][1] < now)
+                if live and j not in summ:
+                    return ('gc-removed-live-session', 'gc at %d removed a file whose deadline %s has not passed' % (now, dead[j]))
+                if gone and j in summ:
+                    return ('gc-kept-dead-file', 'gc at %d kept a file whose timestamp is unreadable or past (%s)' % (now, dead[j]))
+                if j not in summ:
+                    adm[j], must[j], cands[j], dead[j], known_absent[j], shortp[j], shortw[j] = set(), None, [], None, True, None, False
+            if i not in summ:
+                return ('gc-removed-live-session',
+                        'a request saved session %d with deadline %d while gc at %d was running, nobody removed it afterwards, and the file is gone: '
+                        'gc unlinked a live session (its look at the stamp and its unlink are not under one hold of the per-sid lock)' % (i, t, now))
+            adm[i], must[i], cands[i], dead[i], shortp[i], shortw[i], known_absent[i] = {(t, d)}, (t, d), [(t, d)], ('t', t), None, False, False
+            prev = summ
+            continue
         cut_write = False
         if op == 'W':
             # a save whose write() calls were cut short: write_all advances its buffer (repaired in /repo 74c63d5), so this is a complete save
@@ -1001,7 +1210,7 @@ def nontrivial(case_line, out):
         return True
     if case_line.startswith('E '):
         return ' C:' in case_line or ' J:' in case_line
-    return ' K:' in case_line or ' W:' in case_line or ' D:' in case_line or ' H:' in case_line or ' Y:' in case_line or ' P:' in case_line or ' G:' in case_line or ' V:' in case_line or ' Q:' in case_line or ' T:' in case_line or ' U:' in case_line or ' M:' in case_line
+    return ' K:' in case_line or ' W:' in case_line or ' D:' in case_line or ' H:' in case_line or ' Y:' in case_line or ' A:' in case_line or ' P:' in case_line or ' G:' in case_line or ' V:' in case_line or ' Q:' in case_line or ' T:' in case_line or ' U:' in case_line or ' M:' in case_line
 
 
 def classify(case_line, out):
@@ -1012,7 +1221,7 @@ def classify(case_line, out):
         return 'api:' + ('crash' if ' C:' in case_line else 'garbage' if ' J:' in case_line else 'save-load') + (':none' if last and last[-1].startswith('R=none') else ':some' if last else '')
     ops = case_line.split()[2:]
     kinds = set(x[0] for x in ops)
-    k = 'cookie' if kinds == {'V'} else 'short-write' if 'W' in kinds else 'short-read' if ('D' in kinds or 'H' in kinds or 'Y' in kinds) else 'threads' if 'T' in kinds else 'processes' if 'U' in kinds else 'crash' if 'K' in kinds else 'garbage' if 'P' in kinds else 'gc' if 'G' in kinds else 'save-load'
+    k = 'cookie' if kinds == {'V'} else 'gc-race' if 'A' in kinds else 'short-write' if 'W' in kinds else 'short-read' if ('D' in kinds or 'H' in kinds or 'Y' in kinds) else 'threads' if 'T' in kinds else 'processes' if 'U' in kinds else 'crash' if 'K' in kinds else 'garbage' if 'P' in kinds else 'gc' if 'G' in kinds else 'save-load'
     if k == 'crash':
         ks = [x for x in ops if x[0] == 'K']
         ns = len(ks[-1].split(':')[4].split(','))
@@ -1032,6 +1241,10 @@ def run(ctx):
     e = gen_sid_leaf(ctx)
     if e:
         ctx.broke('translator cxx2v failed on session_sid::valid_sid (tie to source broken)', e)
+    e, locktab = gen_locktab(ctx)
+    if e:
+        ctx.broke('lock table: the lock structure of src/session_posix_file_storage.cpp is no longer understood (tie broken)', e)
+    ctx.coverage['lock_table'] = {k: ['%s@%d' % x for x in v] for k, v in (locktab or [])}
     e = crc_calc_tie()
     if e:
         ctx.broke('tie: cppcms::impl::crc32_calc / its two uses no longer have the text the model crc32_calc was written from', e)
@@ -1042,6 +1255,7 @@ def run(ctx):
         'tools/cxx2v.py + clang JSON AST (CRC table of private/crc32.h, via harness/C18_crc_tu.cpp; per-character test of session_sid::valid_sid, '
         're-wrapped from the transducer form by checks/C18.py:gen_sid_leaf)',
         'extraction: ExtrOcamlBasic only, OCaml 4.13.1',
+        'checks/C18.py:lock_table (lexical extraction of locked_file scopes and file system calls; class locked_file tied by SHA-256 of its text)',
         'checks/C18.py:crc_calc_tie (text of class crc32_calc and of its two call sites); Python zlib.crc32 as the reference checksum in the oracle',
         'harness/C18_session.cpp (same interposition and materialisation, public session API, judged by the oracle only)',
         'harness/C18_filestore.cpp (interposed write()/read()/time()/operator new, crash-state materialisation from the recorded writes, own bitwise CRC for '
@@ -1078,7 +1292,7 @@ def run(ctx):
     ctx.coverage['rule'] = ('a case is a script on the real session_file_storage in a scratch directory: complete saves S, crashed saves K (the real '
                             'save runs with write() recorded, then sector s of the file is set to the state after p_s bytes of the recorded stream '
                             'on top of the earlier content), raw garbage P, load L at a given clock, gc G at a given clock, remove X, load under an address-space '
-                            'limit M, save with write() calls cut short W, load with data read() calls cut short D / with all read() calls cut short H, gc with every read() cut short Y, session_sid::valid_sid V / load Q, threads T, processes U; after every '
+                            'limit M, save with write() calls cut short W, load with data read() calls cut short D / with all read() calls cut short H, gc with every read() cut short Y, gc with a forced rendezvous against a load+save of the same sid A, session_sid::valid_sid V / load Q, threads T, processes U; after every '
                             'operation the directory (length + CRC of every file) is reported. Exhaustive: payloads 0..6 bytes (0..11 thorough) x old state '
                             '{absent, shorter, equal, longer, garbage} x every byte progress x 3 clock positions x both deadline orders. Sampled '
                             '(seeded): 5 (18 thorough) multi-sector sizes around sector boundaries x 4 old shapes x (stream prefix x all sector subsets, and '
